@@ -214,6 +214,8 @@ def _run_concrete(em, D, flags, h, ys, nv):
                     want = 0.0
                 elif n >= 2:
                     want = float((n * sxx - sx * sx) / (n * n))
+                    if abs(variances[i][k][l] - want) > 1e-6 * (1e-9 + abs(want)) + 1e-12:
+                        return False, f"var[{i}][{k}][{l}]={variances[i][k][l]} want {want} (population variance of the samples)"
                 else:
                     want = float(nv)
                 if abs(variances[i][k][l] - want) > 1e-9 * (1 + abs(want)):
@@ -237,8 +239,11 @@ def _validate(D, flags, hs, r):
     em = _mod()
     rng = np.random.RandomState(5)
     n = 0
-    for h in hs:
-        ys = [np.round(rng.uniform(-3, 3, size=(len(op[1]), OD)) * 8) / 8 for op in h if op[0] == "A"]
+    for hi, h in enumerate(hs):
+        # every other skeleton is replayed with samples at a large level relative to their spread (1e7 ± 1): the
+        # reported statistics must still be the population mean/variance (numerically stable accumulation)
+        off = 1.0e7 if hi % 2 else 0.0
+        ys = [off + np.round(rng.uniform(-3, 3, size=(len(op[1]), OD)) * 8) / 8 for op in h if op[0] == "A"]
         ok, detail = _run_concrete(em, D, flags, h, [[[Fraction(float(v)) for v in row] for row in Y] for Y in ys], 0.25)
         if not ok:
             r["violations"].append({"obligation": "concrete validation", "reproduced": True, "replay_detail": detail,
